@@ -789,3 +789,90 @@ def r_arity(ctx, entry):
                           % (f.name, callee.name, want, callee.name, bad[0][1] if bad else '', bad[0][0] if bad else 0),
                           inputs='inputs that take the odd return path')
     run.floor('R-ARITY', 'unpacked dsw calls in the closure of %s' % entry, n, 1)
+
+
+def r_recomb(ctx):
+    """repair_dna: segments are extended by exactly the symbol read; candidates are segment_0 + frag_0 + ... + last segment"""
+    run = ctx.run
+    run.rule('R-RECOMB', "repair_dna: on the walk arm the current segment grows by exactly the symbol just read; every candidate "
+                         "is split[0] + frag[0] + ... + split[n-2] + frag[n-2] + split[n-1] (loop over range(len(split) - 1), then "
+                         "the last segment); the candidate count starts at 1 and is the product of the per-site counts")
+    f = ctx.p.func('dsw.spiderweb.repair_dna')
+    strand = ('v', 'dna_sequence', 'P')
+    steps = walk_steps(ctx, f)
+    scan = steps[0].node.loops[-1]
+    head = f.nodes[scan]
+    test = f.term(head.ast, head)
+    cursor = test[2]
+    # (1) the walk arm: segments[-1] += STRAND[cursor]
+    ok1 = False
+    seg = None
+    for p, k in ctx.body_paths(f, scan):
+        if k != 'back' or steps[0].node.id not in p:
+            continue
+        events, env = walk_path(f, p)
+        for e in events:
+            if e.kind == 'augstore' and e.extra[0] == 'sub' and e.extra[2] == ('c', -1):
+                seg = e.name
+                ok1 = e.term == ('sub', strand, cursor)
+    run.check(ok1, 'R-RECOMB', f, 'walk-arm:segment-grows-by-symbol-read', head.lineno,
+              'segments[-1] += strand[cursor]', 'the walk arm does not append exactly the symbol it just followed to the current segment',
+              inputs='every strand (a clean strand is not returned unchanged)')
+    # (2) recombination
+    found = 0
+    for nd in f.nodes:
+        if nd.kind != 'for':
+            continue
+        it = f.term(nd.stmt.iter, nd)
+        if not is_call(it, 'itertools.product'):
+            continue
+        body = {n.id for n in f.nodes if nd.id in n.loops}
+        inner = [n for n in f.nodes if n.id in body and n.kind == 'for']
+        if not inner:
+            continue
+        found += 1
+        lp = inner[0]
+        lt = f.term(lp.stmt.iter, lp)
+        a = affine(lt[2][0]) if is_call(lt, 'builtins.range') and len(lt[2]) == 1 else None
+        lens = [x for x in (a or {}) if x != 1 and is_call(x, 'builtins.len')]
+        okr = a is not None and len(lens) == 1 and aff_eq(a, {lens[0]: 1, 1: -1}) and lens[0][2][0][0] == 'v' and lens[0][2][0][1] == seg
+        run.check(okr, 'R-RECOMB', f, 'recombination:range(len(segments)-1)', lp.lineno, 'one fragment between consecutive segments',
+                  'the recombination loop runs over %s, not range(len(segments) - 1)' % show(lt)[:60],
+                  inputs='strands with detected errors')
+        # inner body: acc += segments[i] + fragments[i]; after loop: acc += segments[-1]
+        okb = oke = False
+        for p, k in ctx.body_paths(f, lp.id):
+            if k != 'back':
+                continue
+            events, env = walk_path(f, p)
+            for e in events:
+                if e.kind == 'aug' and e.extra[0] == 'bin' and e.extra[1] == '+':
+                    x, y = e.extra[2], e.extra[3]
+                    okb = x[0] == 'sub' and x[1][0] == 'v' and x[1][1] == seg and y[0] == 'sub' and x[2] == y[2] and \
+                        y[1][0] == 'iter' and x[2][0] in ('iter', 'idx')
+        for n in f.nodes:
+            if n.id in body and n.loops[-1] == nd.id:
+                for d in n.defs:
+                    if d.kind == 'aug' and d.value is not None:
+                        t = f.term(d.value, n)
+                        if t[0] == 'sub' and t[1][0] == 'v' and t[1][1] == seg and t[2] == ('c', -1):
+                            oke = True
+        run.check(okb, 'R-RECOMB', f, 'recombination:segment-then-fragment', lp.lineno, 'candidate += segments[i] + fragments[i]',
+                  'inside the recombination loop the candidate is not extended by segments[i] + fragments[i] of the same i',
+                  inputs='strands with detected errors')
+        run.check(oke, 'R-RECOMB', f, 'recombination:last-segment-appended', nd.lineno, 'candidate += segments[-1] after the loop',
+                  'the last segment is not appended after the recombination loop: every candidate (also for a clean strand) loses its tail',
+                  inputs='every strand')
+    run.floor('R-RECOMB', 'recombination loops', found, 1)
+    # (3) count starts at 1 and is multiplied by len(fragments) per site
+    okc = False
+    for d in f.defs:
+        if d.kind == 'aug' and isinstance(d.extra, ast.Mult) and d.value is not None:
+            nd = f.nodes[d.node]
+            init = [f.defs[i] for i in f.reaching(nd.loops[-1] if nd.loops else nd.id, d.name) if f.defs[i].kind == 'assign']
+            its = [TermBuilder(f, x.node).def_term(x.id) for x in init]
+            t = f.term(d.value, nd)
+            okc = bool(its) and all(i == ('c', 1) for i in its) and is_call(t, 'builtins.len')
+    run.check(okc, 'R-RECOMB', f, 'count=product-of-site-counts-from-1', f.node.lineno, 'count starts at 1, count *= len(fragments)',
+              'the candidate count does not start at 1 / is not multiplied by the per-site candidate counts: a clean strand '
+              '(empty product) must give count 1 so that it reaches the product path', inputs='clean strands')
